@@ -124,7 +124,7 @@ func newMachine() *rig.Machine {
 }
 
 func run(c *rig.Ctx) {
-	c.Require("one_step_states", "history_ops", "latches", "rollovers_seen", "halted_stretches", "timebase_runs", "out_of_range_states")
+	c.Require("one_step_states", "history_ops", "latches", "rollovers_seen", "halted_stretches", "timebase_runs", "out_of_range_states", "timebase_dma_starts")
 
 	// (a) one-step exhaustive
 	c.Part("step", 512, func(i int64, _ *rig.Rng) {
@@ -353,7 +353,31 @@ func run(c *rig.Ctx) {
 			m.Mem.Write(0x6000, 1)
 			return m.Mem.Read(0xa000)
 		}
+		// in every other run the rest of the machine is busy meanwhile: OAM DMA transfers, LCD
+		// switching, ROM bank switches, timer and sound activity (a second is 2^20 machine
+		// cycles whatever else happens in them)
+		busy := i%2 == 1
 		for t := 0; t < 1048575; t++ {
+			if busy {
+				if t%1021 == 0 {
+					switch r.Intn(5) {
+					case 0, 1:
+						m.Mem.Write(0xff46, uint8(r.Intn(0xf2)))
+						c.Count("timebase_dma_starts", 1)
+					case 2:
+						m.Mem.Write(0xff40, r.U8())
+					case 3:
+						m.Mem.Write(0x2000, r.U8())
+					case 4:
+						m.Mem.Write(0xff07, r.U8())
+					}
+				}
+				m.PPU.EndMachineCycle()
+				m.Audio.EndMachineCycle()
+				if m.Timer.EndMachineCycle() {
+					m.IRQ.RequestTimer()
+				}
+			}
 			m.Mem.EndMachineCycle()
 		}
 		if got := readS(); got != s0 {
